@@ -41,6 +41,11 @@ type e4Config struct {
 	PingDelayMs int `json:"pingDelayMs,omitempty"`
 	// OnErrorCalls: the OnError callback reads the client's statistics and current BaseClient (an application logging them)
 	OnErrorCalls bool `json:"onErrorCalls,omitempty"`
+	// ReuseSubBuf: the application keeps one []Subscription buffer and re-uses it for its next Subscribe call once the client
+	// has gone idle (every earlier request done): what it passed earlier is overwritten then
+	ReuseSubBuf bool `json:"reuseSubBuf,omitempty"`
+	// RespTimeoutLate: RetryClient.ResponseTimeout is assigned only after Connect returned (before any request is made)
+	RespTimeoutLate bool `json:"respTimeoutLate,omitempty"`
 	// RepeatPubrec: the broker repeats the PUBREC of unfinished QoS2 exchanges right behind the CONNACK of a resumed session
 	RepeatPubrec bool `json:"repeatPubrec,omitempty"`
 	// AppPingShortN > 0: right after Connect returned the application pings that many times itself, each with a 1 ms
@@ -473,6 +478,9 @@ func e4RunBody(c e4Case, started chan<- *e4Env) (res *e4Result) {
 		b.inject[conn] = append(b.inject[conn], refPacket{Type: rtPublish, Topic: vSyncTopic, QoS: 1, ID: vSyncIDBase + conn})
 	}
 	rc := &RetryClient{DirectlyPublishQoS0: c.Cfg.DirectQoS0, ResponseTimeout: time.Duration(c.Cfg.RespTimeoutMs) * time.Millisecond}
+	if c.Cfg.RespTimeoutLate {
+		rc.ResponseTimeout = 0 // assigned when Connect has returned (see startConnect)
+	}
 	rc.OnError = func(err error) {
 		seq := log.add(0, "ONERROR", nil, err.Error())
 		e.mu.Lock()
@@ -639,9 +647,12 @@ func e4RunBody(c e4Case, started chan<- *e4Env) (res *e4Result) {
 	}()
 
 	var submitMu sync.Mutex
+	var subBuf []Subscription // (ReuseSubBuf) the application's buffer
+	subBufIdle := false       // the client went idle since the buffer was last handed to Subscribe
 	submit := func(s e4Step) {
 		submitMu.Lock()
 		defer submitMu.Unlock()
+		defer func() { subBufIdle = false }()
 		q := e4Req{Idx: s.Idx, Kind: s.Kind, QoS: s.QoS, Step: s, PreConn: !connStarted, InOutage: held}
 		var err error
 		ctx := ctx
@@ -666,6 +677,15 @@ func e4RunBody(c e4Case, started chan<- *e4Env) (res *e4Result) {
 			subs := []Subscription{{Topic: q.Tag, QoS: QoS(s.QoS)}}
 			for _, f := range s.Subs {
 				subs = append(subs, Subscription{Topic: f.Filter, QoS: QoS(f.QoS)})
+			}
+			if c.Cfg.ReuseSubBuf {
+				if subBufIdle && cap(subBuf) >= len(subs) {
+					subBuf = subBuf[:len(subs)]
+					copy(subBuf, subs) // overwrites what an earlier, completed Subscribe call was given
+					subs = subBuf
+				} else {
+					subBuf = subs
+				}
 			}
 			_, err = cli.Subscribe(ctx, subs...)
 		case "unsub":
@@ -699,6 +719,9 @@ func e4RunBody(c e4Case, started chan<- *e4Env) (res *e4Result) {
 				ccancel() // after the first connection the loop must not depend on the caller's context
 			}
 			_ = ccancel
+			if c.Cfg.RespTimeoutLate {
+				rc.ResponseTimeout = time.Duration(c.Cfg.RespTimeoutMs) * time.Millisecond
+			}
 			e.mu.Lock()
 			res.ConnectErr, res.ConnectReturn = err, true
 			e.mu.Unlock()
@@ -790,6 +813,9 @@ func e4RunBody(c e4Case, started chan<- *e4Env) (res *e4Result) {
 					res.Stats = rc.Stats()
 					return
 				}
+				submitMu.Lock()
+				subBufIdle = true
+				submitMu.Unlock()
 			}
 		case "holdDial":
 			d.hold()
@@ -1275,6 +1301,7 @@ func e4GenConfig(rt *rapid.T) e4Config {
 		OnErrorCalls:    rapid.IntRange(0, 2).Draw(rt, "onErrorCalls") == 0,
 		StateCalls:      rapid.IntRange(0, 2).Draw(rt, "stateCalls") == 0,
 		RepeatPubrec:    rapid.IntRange(0, 2).Draw(rt, "repeatPubrec") == 0,
+		ReuseSubBuf:     rapid.IntRange(0, 2).Draw(rt, "reuseSubBuf") == 0,
 		CancelSubmitCtx: rapid.IntRange(0, 2).Draw(rt, "cancelSubmitCtx") == 0,
 		Transport:       rapid.SampledFrom([]int{0, 0, 1, 2, 3, 4, 5, 7}).Draw(rt, "transport"),
 	}
